@@ -175,13 +175,15 @@ impl Format {
 
         let s = s_in.trim();
 
-        for (idx, char) in s.chars().enumerate() {
+        // `idx` is the byte offset of `char`, so that it can be used to slice the string.
+        for (idx, char) in s.char_indices() {
+            let is_last = idx + char.len_utf8() == s.len();
             // We should parse if:
             // 1. we're at the end of the string
             // 2. Or we've hit a non-numeric char and the token is fully numeric
             // 3. Or, token is not numeric (e.g. month name) and the current char is the separator
             // 4. And, if the length of the current substring is longer than 1 and the char is not the optional separator of the previous token.
-            if idx == s.len() - 1
+            if is_last
                 || ((cur_token.is_numeric() && !char.is_numeric())
                     || (!cur_token.is_numeric() && (cur_item.sep_char_is(char))))
             {
@@ -189,13 +191,13 @@ impl Format {
                 if idx == prev_idx
                     && (prev_item.second_sep_char.is_none() || prev_item.second_sep_char_is(char))
                 {
-                    prev_idx += 1;
+                    prev_idx += char.len_utf8();
                     continue;
                 }
 
                 if cur_token == Token::Timescale {
                     // Then we match the timescale directly.
-                    if idx != s.len() - 1 {
+                    if !is_last {
                         // We have some remaining characters, so let's parse those in the only formats we know.
                         ts = TimeScale::from_str(s[idx..].trim()).with_context(|_| ParseSnafu {
                             details: "when parsing from format string",
@@ -210,7 +212,7 @@ impl Format {
                 prev_item = cur_item;
                 prev_token = cur_token;
 
-                let end_idx = if idx != s.len() - 1 || !char.is_numeric() {
+                let end_idx = if !is_last || !char.is_numeric() {
                     // Only advance the token if we aren't at the end of the string
                     if cur_item.sep_char_is_not(char)
                         && (cur_item.second_sep_char.is_none()
@@ -231,7 +233,8 @@ impl Format {
                         break;
                     }
                     cur_item_idx += 1;
-                    match self.items[cur_item_idx] {
+                    // A format may hold the maximum number of tokens: there is no item past the last one.
+                    match self.items.get(cur_item_idx).copied().flatten() {
                         Some(item) => {
                             cur_item = item;
                             cur_token = cur_item.token;
@@ -241,18 +244,21 @@ impl Format {
 
                     idx
                 } else {
-                    idx + 1
+                    idx + char.len_utf8()
                 };
 
                 let sub_str = &s[prev_idx..end_idx];
 
                 match prev_token {
                     Token::YearShort => {
-                        decomposed[0] =
-                            sub_str.parse::<i32>().map_err(|_| HifitimeError::Parse {
+                        decomposed[0] = sub_str
+                            .parse::<i32>()
+                            .ok()
+                            .and_then(|year| year.checked_add(2000))
+                            .ok_or(HifitimeError::Parse {
                                 source: ParsingError::ValueError,
                                 details: "could not parse year as i32",
-                            })? + 2000;
+                            })?;
                     }
                     Token::DayOfYear => {
                         // We must parse this as a floating point value.
@@ -279,7 +285,10 @@ impl Format {
                         }
                     }
                     Token::WeekdayDecimal => {
-                        todo!()
+                        return Err(HifitimeError::Parse {
+                            source: ParsingError::ValueError,
+                            details: "parsing the weekday in decimal form is not supported",
+                        });
                     }
                     Token::MonthName | Token::MonthNameShort => {
                         match MonthName::from_str(sub_str) {
@@ -303,7 +312,13 @@ impl Format {
                                     Some(pos) => {
                                         // If these are the subseconds, we must convert them to nanoseconds
                                         if prev_token == Token::Subsecond {
-                                            if end_idx - prev_idx != 9 {
+                                            if end_idx - prev_idx > 9 {
+                                                // More digits than nanoseconds
+                                                return Err(HifitimeError::Parse {
+                                                    source: ParsingError::ValueError,
+                                                    details: "more than nine subsecond digits",
+                                                });
+                                            } else if end_idx - prev_idx != 9 {
                                                 decomposed[pos] = val
                                                     * 10_i32.pow((9 - (end_idx - prev_idx)) as u32);
                                             } else {
@@ -315,12 +330,13 @@ impl Format {
                                     }
                                     None => match prev_token {
                                         Token::DayOfYearInteger => day_of_year = Some(val as f64),
-                                        Token::Weekday => todo!(),
-                                        Token::WeekdayShort => todo!(),
-                                        Token::WeekdayDecimal => todo!(),
-                                        Token::MonthName => todo!(),
-                                        Token::MonthNameShort => todo!(),
-                                        _ => unreachable!(),
+                                        _ => {
+                                            // e.g. digits where a time scale is expected
+                                            return Err(HifitimeError::Parse {
+                                                source: ParsingError::ValueError,
+                                                details: "unexpected numerical value",
+                                            });
+                                        }
                                     },
                                 }
                             }
@@ -334,10 +350,10 @@ impl Format {
                     }
                 }
 
-                prev_idx = idx + 1;
+                prev_idx = idx + char.len_utf8();
                 // If we are about to parse an hours offset, we need to set the sign now.
                 if cur_token == Token::OffsetHours {
-                    if &s[idx..idx + 1] == "-" {
+                    if char == '-' {
                         offset_sign = -1;
                     }
                 }
@@ -358,7 +374,10 @@ impl Format {
                     + (decomposed[4] as i64) * Unit::Minute
                     + (decomposed[5] as i64) * Unit::Second
                     + (decomposed[6] as i64) * Unit::Nanosecond;
-                Epoch::from_day_of_year(decomposed[0], days, ts) + elapsed
+                // Same as Epoch::from_day_of_year, which panics when the year is out of range.
+                Epoch::maybe_from_gregorian(decomposed[0], 1, 1, 0, 0, 0, 0, ts)?
+                    + (days - 1.0) * Unit::Day
+                    + elapsed
             }
             None => Epoch::maybe_from_gregorian(
                 decomposed[0],
